@@ -123,6 +123,7 @@ type Choice struct {
 	CurOK     bool // running goroutine could have continued (switching = preemption)
 	Preempted bool
 	Key       [2]uint64 // HB mode: fingerprint of the state in which the decision is taken
+	EnvMask   uint64    // bit i set: alternative i is an environment choice (vrt.Choose), not a scheduling one
 }
 
 // S is the active scheduler (nil = passthrough).
@@ -559,6 +560,11 @@ func Run(prefix []int, o Options, main func()) Result {
 				}
 			}
 			c := Choice{N: len(ts), Pick: pick, NCur: ncur, CurOK: curOK, Preempted: curOK && !ts[pick].involves(last)}
+			for i, t := range ts {
+				if i < 64 && t.g.op.Kind == OpChoose {
+					c.EnvMask |= 1 << uint(i)
+				}
+			}
 			if s.hb {
 				c.Key = [2]uint64{mix(s.fp[0], uint64(last.ID)+1), mix(s.fp[1], uint64(last.ID)+1)}
 			}
